@@ -241,6 +241,55 @@ func cases(tier string, seed int64) []eng.Case {
 		}
 	}
 
+	// 3c. dense counts with the largest auxiliary modulus: n = 2^k-1 accumulates one rotated copy per set bit,
+	// and 2^64/p is ~8 for the usual 61-bit P, so that an accumulator that is not reduced wraps from ~10 terms on
+	largestBelow := func(bound, nth uint64) uint64 {
+		for x := (bound-1)/nth*nth + 1; x > nth; x -= nth {
+			if gen.IsPrime(x) {
+				return x
+			}
+		}
+		return 0
+	}
+	type denseFam struct {
+		f     fam
+		op    string
+		logN  int
+		bound uint64
+		dense int
+		name  string
+	}
+	dfs := []denseFam{
+		{fam{"rlwe", "std", true}, "PartialTracesSum", 12, 1 << 61, 2047, "p61"},
+		{fam{"ckks", "std", true}, "RotateAndAdd", 13, 1 << 61, 4095, "p61"},
+		{fam{"bgv", "std", true}, "RotateAndAdd", 12, 1 << 61, 2047, "p61"},
+		{fam{"rlwe", "std", false}, "Replicate", 12, 1 << 61, 2047, "p61"},
+	}
+	if thorough {
+		dfs = append(dfs,
+			denseFam{fam{"rlwe", "std", true}, "PartialTracesSum", 13, 1 << 61, 4095, "p61"},
+			denseFam{fam{"ckks", "std", true}, "RotateAndAdd", 12, 1 << 61, 2047, "p61"},
+			denseFam{fam{"bgv", "std", true}, "RotateAndAdd", 13, 1 << 61, 4095, "p61"},
+			denseFam{fam{"rlwe", "ci", true}, "PartialTracesSum", 11, 1 << 61, 2047, "p61"},
+			denseFam{fam{"ckks", "ci", true}, "RotateAndAdd", 11, 1 << 61, 2047, "p61"},
+			denseFam{fam{"rlwe", "std", true}, "PartialTracesSum", 12, 1 << 60, 2047, "p60"},
+		)
+	}
+	for _, d := range dfs {
+		cf, ok := mkCfg(r, d.f.scheme, d.f.ring, d.logN, shape{3, 1, 0}, d.f.ntt)
+		if !ok {
+			continue
+		}
+		p := largestBelow(d.bound, cf.nthRoot())
+		if p == 0 {
+			continue
+		}
+		cf.P = []uint64{p}
+		cf.Dense = d.dense
+		op := d.op
+		out = append(out, eng.Case{ID: uid("sum-dense/" + d.name + "/" + op + "/" + cf.tag()), Sig: "C11|" + op, Desc: cf, Run: func(c *eng.Ctx) { runSum(c, cf, op, false, 0) }})
+	}
+
 	// 4. traces
 	trN := []int{4, 5, 6, 7, 8, 9, 10, 11}
 	if thorough {
